@@ -7,12 +7,12 @@ Model of `indexIngest` (store.go:155-304), `indexValidReferrer` (306-358), `refe
 `memRepo.repoInit` (mem.go:495) and `dirRepo.indexLoad` (dir.go:547).  The referrers API is enabled (C17 is about
 the conversion); schema version / media type normalisation is not modelled.
 
-The code is mirrored **as repaired** (patches/F23-*, patches/F30-*, patches/F33-*, and the lock repair F21 which is
+The code is mirrored **as repaired** (patches/F23-*, patches/F30-*, patches/F34-*, and the lock repair F21 which is
 invisible here):
 * F23: an adopted fallback index is remembered in `referrerResponse`, so that a later fallback index or a
   regenerated response for the same subject is merged with it instead of replacing it;
 * F30: `BlobCreate` answering "exists" for the regenerated response is not an error;
-* F33: the child scan starts from the manifests as listed *after* the conversion (what a later load of the saved
+* F34: the child scan starts from the manifests as listed *after* the conversion (what a later load of the saved
   index sees), not from the list as it was before.
 
 Go iterates over `addResp` (a map) in an unspecified order: `ingest` takes the order as the parameter `order`.
@@ -351,7 +351,7 @@ def convert (nm : List Desc → String) (order : List (String × List Desc) → 
     `order` the iteration order of the Go map `addResp` -/
 def ingest (nm : List Desc → String) (order : List (String × List Desc) → List (String × List Desc)) (x : IState) : IState :=
   let s1 := if x.converted then x else convert nm order x
-  -- the child scan starts from the manifests as they are listed after the conversion (repair F33)
+  -- the child scan starts from the manifests as they are listed after the conversion (repair F34)
   let q := pass1 s1.index.manifests
   let sc := childScan s1.blobs { queue := q.scan, seen := q.seen, children := s1.index.children }
   { s1 with index := { s1.index with children := sc.children } }
